@@ -93,7 +93,7 @@ def gen_model(rnd, tier='quick'):
             break
         a, b = rnd.sample(range(n), 2)
         links.append([a, b])
-    return {'kind': 'csv', 'tasks': tasks, 'links': links}
+    return {'kind': 'csv', 'tasks': tasks, 'links': links, 'delimiter': rnd.choice([None, None, None, ',', '\t', '|'])}
 
 
 def build(model):
@@ -198,6 +198,18 @@ def judge_roundtrip(model, acc, wk):
     if depth or kept or classes:
         acc.sig(min(len(ids), 6), depth, min(len(kept), 3), sorted(classes), zero_parent, has_min, len(customs))
     p1, p2, p3 = wk.path('a.csv'), wk.path('b.csv'), wk.path('c.csv')
+    if model.get('delimiter'):
+        # the delimiter is a parameter of both functions: a round trip with another one reproduces the WBS as well
+        acc.count('other_delimiter_roundtrips')
+        pd = wk.path('d.csv')
+        try:
+            write_csv(w, pd, delimiter=model['delimiter'])
+            rd = read_csv(pd, delimiter=model['delimiter'])
+            dd = first_diff(a, describe(rd, customs))
+            if dd:
+                acc.violation(f'C13/roundtrip-{dd[0]}/other-delimiter', f'round trip with delimiter {model["delimiter"]!r} differs: ' + dd[1], model)
+        except Exception as e:
+            acc.violation(f'C13/roundtrip-raised-{type(e).__name__}/other-delimiter', f'round trip with delimiter {model["delimiter"]!r} raised {type(e).__name__}: {str(e)[:100]}', model)
     step = 'write'
     try:
         write_csv(w, p1)
